@@ -44,6 +44,7 @@ def render(c, key, seed_shape):
     members = ["a", "b"] if shape == "named" else ["0", "1"]
     pieces = []
     lit_names = set()
+    case_mod = ["", "", "7", "018", "#", "*>9"][(seed_shape // 135) % 6]     # the same modifier on every placeholder of a case
     for p in c["lit"]:
         if p["k"] == "text":
             pieces.append("t")
@@ -65,7 +66,10 @@ def render(c, key, seed_shape):
             t = LET[p["tr"]]
             # spelling: a fifth of the cases write every placeholder with trailing whitespace (`{x }`, `{x:p }`), which
             # std::fmt ignores
-            pieces.append("{" + rs + (":" + t if t else "") + (" " if (seed_shape // 27) % 5 == 0 else "") + "}")
+            # modifiers rotate as well (the reference is format! on the very same literal, so any std-valid spec will do):
+            # none / width / zero-padded width / alternate / fill+align+width
+            spec = case_mod + t
+            pieces.append("{" + rs + (":" + spec if spec else "") + (" " if (seed_shape // 27) % 5 == 0 else "") + "}")
     lit = "|".join(pieces)
     user_aliases = set()
     dargs, rargs = [], []
@@ -120,7 +124,7 @@ def render(c, key, seed_shape):
         else:
             f, depth = tok[2]
             obj = "(&B)" if f == 0 else (itself[f - 1] if depth == 0 else refto[f - 1])
-            docp.append('format!("{:%s}", %s)' % (LET[tok[1]], obj))
+            docp.append('format!("{:%s%s}", %s)' % (case_mod, LET[tok[1]], obj))
     doc_call = "[" + ", ".join(docp) + '].join("|")'
     comp_code = ""
     if companion:
@@ -204,7 +208,7 @@ pub fn run() {{ let got = format!("{{}}", E::{nm}); let r = String::from({vlib.r
 
 def run(chk, tier, seed, replay):
     chk.assumptions += ["every field is a `&'static i32` (implements all nine traits, so any placeholder trait can refer to any field)",
-                        "shape (tuple struct / named struct / enum variant), derived trait and placeholder spelling (a fifth with trailing whitespace) rotate over the cases by hash",
+                        "shape (tuple struct / named struct / enum variant), derived trait and placeholder spelling (a fifth with trailing whitespace; width / zero-pad / alternate / fill modifiers) rotate over the cases by hash",
                         "rename_all: 8 casings x 5 unambiguous names, two of them raw identifiers (fixed expectation table)"]
     r = vlib.run_tlc("MC_FmtText", f"MC_FmtText_{tier}", workers=8, timeout=1800, xmx="6g")
     chk.add_tlc(r, "literals x argument lists")
@@ -222,7 +226,7 @@ def run(chk, tier, seed, replay):
         has_ptr = any(p["k"] == "ph" and p["tr"] == "Pointer" for p in c["lit"])
         if not replay and share > 1 and not c["transparent"] and vlib.seeded_pick(k, seed, share if not has_ptr else max(1, share // 4)) != 0:
             continue
-        m, d = render(c, k, vlib.seeded_pick(k, 7, 27 * 5))
+        m, d = render(c, k, vlib.seeded_pick(k, 7, 27 * 5 * 6))
         mods.append((k, m))
         decls[k] = d
     cap = 12000 if tier == "quick" else 24000     # rustc's memory grows with the crate: keep the compiled set bounded
